@@ -151,7 +151,7 @@ pub fn threading_program(seed: u64) -> String {
         let init = match t { "int" => "1", "uint" => "2u", "float" => "0.5", _ => "float2(1.0, 2.0)" };
         if ns { s += &format!("namespace NG{} {{ static {} g{} = {}; }}\n", g, t, g, init); } else if rng.chance(1, 5) { s += &format!("groupshared {} g{};\n", t, g); } else { s += &format!("static {} g{} = {};\n", t, g, init); }
     }
-    s += "static const float kc = 2.0;\nstruct SM { int m; int bump(int p); };\n";
+    s += "static const float kc = 2.0;\nstruct SC { int a; int b; int c; };\nstruct SM { int m; int bump(int p); };\n";
     let gname = |g: usize, text: &str| -> String { if text.contains(&format!("namespace NG{} ", g)) { format!("NG{}::g{}", g, g) } else { format!("g{}", g) } };
     // functions in dependency order: f_i may call f_j for j < i
     let mut sigs: Vec<(String, Vec<u8>, bool)> = Vec::new(); // (name, param dirs, has default)
@@ -184,6 +184,16 @@ pub fn threading_program(seed: u64) -> String {
                 }
                 _ => { if !dirs.is_empty() && dirs[0] != 0 { s += "    p0 += acc;\n"; } else { s += "    acc *= 3;\n"; } }
             }
+        }
+        // a scalar spread over every member of a struct: Metal has no such cast and writes one operand per member, which
+        // is only the same thing when evaluating the operand twice changes nothing
+        match rng.below(60) {
+            0..=3 => s += "    SC sc0 = (SC)(acc + 1);\n    acc += sc0.a + sc0.b;\n",
+            4..=7 => s += "    SC sc1 = (SC)acc;\n    acc += sc1.c;\n",
+            // rejected by the Metal exporter today (UnsupportedCast): kept rare, they only matter if that changes
+            8 => s += "    SC sc2 = (SC)(acc++);\n    acc += sc2.b;\n",
+            9 => s += "    SC sc3 = (SC)(acc += 2);\n    acc += sc3.c;\n",
+            _ => {}
         }
         if ret == "int" { s += "    return acc;\n"; }
         s += "}\n";
